@@ -1,0 +1,93 @@
+// SPDX-FileCopyrightText: 2026 The Pion community <https://pion.ly>
+// SPDX-License-Identifier: MIT
+
+//go:build verif
+
+// Contracts (comment-only) for property C16 (attribute codecs): every ICE STUN
+// attribute decodes to the value that was encoded and rejects wrong sizes.
+// attrHas / attrLen / attrByte / attrBE32 describe the first attribute of a
+// type in a stun.Message (see /verif/specs/lib/stun.spec).
+
+package ice
+
+//@ spec macro attrBE64(m *stun.Message, t int) = 72057594037927936*vbyte(m.gVid[t], 0) + 281474976710656*vbyte(m.gVid[t], 1) + 1099511627776*vbyte(m.gVid[t], 2) + 4294967296*vbyte(m.gVid[t], 3) + 16777216*vbyte(m.gVid[t], 4) + 65536*vbyte(m.gVid[t], 5) + 256*vbyte(m.gVid[t], 6) + vbyte(m.gVid[t], 7)
+
+//@ func (PriorityAttr).AddTo
+//@   props C16
+//@   ensures never-fails: result == nil
+//@   ensures present: attrHas(m, stun.AttrPriority)
+//@   ensures encodes-big-endian: !old(attrHas(m, stun.AttrPriority)) ==> attrLen(m, stun.AttrPriority) == 4 && attrBE32(m, stun.AttrPriority, 0) == p
+
+//@ func (*PriorityAttr).GetFrom
+//@   props C16
+//@   modifies *p, fam:E_uint8
+//@   ensures missing: !attrHas(m, stun.AttrPriority) ==> result != nil
+//@   ensures wrong-size: attrHas(m, stun.AttrPriority) && attrLen(m, stun.AttrPriority) != 4 ==> result != nil
+//@   ensures decodes: attrHas(m, stun.AttrPriority) && attrLen(m, stun.AttrPriority) == 4 ==> result == nil && *p == attrBE32(m, stun.AttrPriority, 0)
+//@   ensures error-keeps-value: result != nil ==> *p == old(*p)
+
+//@ func (tiebreaker).AddToAs
+//@   props C16 C05
+//@   ensures never-fails: result == nil
+//@   ensures present: attrHas(m, t)
+//@   ensures encodes-big-endian: !old(attrHas(m, t)) ==> attrLen(m, t) == 8 && attrBE64(m, t) == a
+
+//@ func (*tiebreaker).GetFromAs
+//@   props C16 C05
+//@   modifies *a, fam:E_uint8
+//@   ensures missing: !attrHas(m, t) ==> result != nil
+//@   ensures wrong-size: attrHas(m, t) && attrLen(m, t) != 8 ==> result != nil
+//@   ensures decodes: attrHas(m, t) && attrLen(m, t) == 8 ==> result == nil && *a == attrBE64(m, t)
+//@   ensures error-keeps-value: result != nil ==> *a == old(*a)
+
+// ICE-CONTROLLING = 0x802A, ICE-CONTROLLED = 0x8029
+//@ func (AttrControl).AddTo
+//@   props C16 C05
+//@   ensures never-fails: result == nil
+//@   ensures controlling: c.Role == Controlling ==> attrHas(m, stun.AttrICEControlling) && (!old(attrHas(m, stun.AttrICEControlling)) ==> attrLen(m, stun.AttrICEControlling) == 8 && attrBE64(m, stun.AttrICEControlling) == c.Tiebreaker)
+//@   ensures controlled: c.Role != Controlling ==> attrHas(m, stun.AttrICEControlled) && (!old(attrHas(m, stun.AttrICEControlled)) ==> attrLen(m, stun.AttrICEControlled) == 8 && attrBE64(m, stun.AttrICEControlled) == c.Tiebreaker)
+
+//@ func (*AttrControl).GetFrom
+//@   props C16 C05
+//@   modifies c.Role, c.Tiebreaker, fam:E_uint8
+//@   ensures controlling-wins: attrHas(m, stun.AttrICEControlling) && attrLen(m, stun.AttrICEControlling) == 8 ==> result == nil && c.Role == Controlling && c.Tiebreaker == attrBE64(m, stun.AttrICEControlling)
+//@   ensures controlled: !attrHas(m, stun.AttrICEControlling) && attrHas(m, stun.AttrICEControlled) && attrLen(m, stun.AttrICEControlled) == 8 ==> result == nil && c.Role == Controlled && c.Tiebreaker == attrBE64(m, stun.AttrICEControlled)
+//@   ensures neither: !attrHas(m, stun.AttrICEControlling) && !attrHas(m, stun.AttrICEControlled) ==> result != nil
+//@   ensures wrong-size-controlling: attrHas(m, stun.AttrICEControlling) && attrLen(m, stun.AttrICEControlling) != 8 ==> result != nil
+//@   ensures wrong-size-controlled: !attrHas(m, stun.AttrICEControlling) && attrHas(m, stun.AttrICEControlled) && attrLen(m, stun.AttrICEControlled) != 8 ==> result != nil
+
+//@ func (UseCandidateAttr).AddTo
+//@   props C16
+//@   ensures never-fails: result == nil
+//@   ensures present: attrHas(m, stun.AttrUseCandidate)
+
+//@ func (UseCandidateAttr).IsSet
+//@   props C16
+//@   pure
+//@   ensures result == attrHas(m, stun.AttrUseCandidate)
+
+//@ func (NominationAttribute).AddToWithType
+//@   props C16 C20
+//@   ensures never-fails: result == nil
+//@   ensures present: attrHas(m, attrType)
+//@   ensures encodes-24-bit: !old(attrHas(m, attrType)) ==> attrLen(m, attrType) == 4 && attrByte(m, attrType, 0) == 0 && 65536*attrByte(m, attrType, 1) + 256*attrByte(m, attrType, 2) + attrByte(m, attrType, 3) == a.Value % 16777216
+
+//@ func (*NominationAttribute).GetFromWithType
+//@   props C16 C20
+//@   modifies a.Value
+//@   ensures missing: !attrHas(m, attrType) ==> result != nil
+//@   ensures too-short: attrHas(m, attrType) && attrLen(m, attrType) < 4 ==> result != nil
+//@   ensures decodes-24-bit: attrHas(m, attrType) && attrLen(m, attrType) >= 4 ==> result == nil && a.Value == 65536*attrByte(m, attrType, 1) + 256*attrByte(m, attrType, 2) + attrByte(m, attrType, 3)
+//@   ensures error-keeps-value: result != nil ==> a.Value == old(a.Value)
+
+//@ func (DtlsInStunAttribute).AddTo
+//@   props C16
+//@   ensures never-fails: result == nil
+//@   ensures present: attrHas(m, stun.AttrDtlsInStun)
+//@   ensures same-bytes: !old(attrHas(m, stun.AttrDtlsInStun)) ==> attrLen(m, stun.AttrDtlsInStun) == len(d) && forall i int :: 0 <= i && i < len(d) ==> attrByte(m, stun.AttrDtlsInStun, i) == elems(d)[d.off + i]
+
+//@ func (*DtlsInStunAttribute).GetFrom
+//@   props C16
+//@   modifies *d
+//@   ensures missing: !attrHas(m, stun.AttrDtlsInStun) ==> result != nil
+//@   ensures decodes: attrHas(m, stun.AttrDtlsInStun) ==> result == nil && len(*d) == attrLen(m, stun.AttrDtlsInStun) && forall j int :: (*d).off <= j && j < (*d).off + len(*d) ==> elems(*d)[j] == attrByte(m, stun.AttrDtlsInStun, j - (*d).off)
